@@ -73,7 +73,9 @@ def features_at(events, line, why):
                 if "x" not in e:
                     xs_ok = False
                 # (name, solver identity, harness term, [(inner name, harness term)])
-                stack[-1].append((e.get("nm", ""), e.get("x", -1), e.get("t"), [(i["nm"], i["t"]) for i in e.get("inner", [])]))
+                ix = e.get("ix") or []
+                stack[-1].append((e.get("nm", ""), e.get("x", -1), e.get("t"),
+                                  [(i["nm"], i["t"], ix[j] if j < len(ix) else -1) for j, i in enumerate(e.get("inner", []))]))
                 ever.append(e.get("x", -1))
             elif c == "push":
                 stack += [[] for _ in range(e.get("n", 1))]
@@ -82,8 +84,8 @@ def features_at(events, line, why):
     act = [a for fr in stack for a in fr]
     # an active unnamed assertion whose formula also carries a live name (given to another assertion of the same
     # formula, or to an occurrence of it as a sub-term): the solver's name table is keyed by term
-    named_t = {t for n, x, t, inner in act if n} | {t for n, x, t, inner in act for _, t in inner}
-    named_x = {x for n, x, t, inner in act if n and x != -1}
+    named_t = {t for n, x, t, inner in act if n} | {t for n, x, t, inner in act for _, t, _ in inner}
+    named_x = {x for n, x, t, inner in act if n and x != -1} | {ix for n, x, t, inner in act for _, _, ix in inner if ix != -1}
     out = {"aliasUnnamed": any((not n) and (t in named_t or (x != -1 and x in named_x)) for n, x, t, inner in act)}
     if not xs_ok:
         return out
